@@ -478,9 +478,104 @@ def bounds(tier):
     return {"max_nodes": "4" if tier == "quick" else "4 (all constructs) + 5 (if/try/finally/return/raise only)", "max_nesting": 3, "skeletons": len(skeletons(tier)), "max_env_answers": 7 if tier == "quick" else 9}
 
 
+def nest3_programs():
+    """three levels of nesting (run > g > h) with the same name bound at several levels: which binding does `nonlocal` / a closure read refer to?"""
+    out = []
+    for f_binds in ("before", "after-call"):
+        for g_mode in ("binds", "nonlocal-write", "reads-only"):
+            for h_mode in ("nonlocal-write", "read", "nonlocal-read", "nonlocal-write-read"):
+                lines = ["def run() -> None:"]
+                if f_binds == "before":
+                    lines.append("    v = 1")
+                lines.append("    def g() -> None:")
+                if g_mode == "binds":
+                    lines.append("        v = 5")
+                elif g_mode == "nonlocal-write":
+                    lines += ["        nonlocal v", "        v = 5"]
+                lines.append("        def h() -> None:")
+                if h_mode.startswith("nonlocal"):
+                    lines.append("            nonlocal v")
+                if "write" in h_mode:
+                    lines.append("            v = 2")
+                if "read" in h_mode:
+                    lines.append("            use(v, 3)")
+                if h_mode == "nonlocal-write":
+                    lines.append("            pass")
+                lines.append("        h()")
+                lines.append("        use(v, 4)")
+                if f_binds == "after-call":
+                    lines.append("    v = 1")
+                lines.append("    g()")
+                lines.append("    use(v, 99)")
+                src = "\n".join(lines) + "\n"
+                try:
+                    compile(src, "<nest3>", "exec")
+                except SyntaxError:
+                    continue
+                out.append(((f_binds, g_mode, h_mode), src))
+    return out
+
+
+def _nest3(res, tier, only=None):
+    from pyanalyze.value import AnySource, AnyValue, KnownValue, flatten_values, UNINITIALIZED_VALUE
+    from pa.run import Rec, check
+    for pi, (label, src) in enumerate(nest3_programs()):
+        if only is not None and list(label) != only:
+            continue
+        res.states += 1
+        order = 10 ** 7 + pi
+        # strict: run it (no environment needed); an unbound read raises like in CPython
+        obs = collections.defaultdict(set)
+        ns = {"use": lambda x, k: obs[k].add(x)}
+        body = re.sub(r"use\(v, (\d+)\)", r"use(_g(lambda: v, \1), \1)", src)
+        ns["_unbound"] = lambda k: obs[k].add(UNB)
+        exec(compile("def _g(f, k):\n    try:\n        return f()\n    except NameError:\n        _unbound(k)\n        raise\n" + body, "<nest3>", "exec"), ns)
+        try:
+            ns["run"]()
+        except Exception:
+            pass
+        res.transitions += 1
+        fails, tree = check(PRE + src, visitor_cls=Rec, want_tree=True)
+        res.transitions += 1
+        und = collections.defaultdict(set)
+        for f in fails:
+            if f["code"].name in ("undefined_name", "possibly_undefined_name"):
+                und[f.get("lineno")].add(1)
+        rep = {}
+        for n in ast.walk(tree):
+            if isinstance(n, ast.Call) and isinstance(n.func, ast.Name) and n.func.id == "use" and len(n.args) == 2 and isinstance(n.args[1], ast.Constant):
+                vals = getattr(n.args[0], "_inf", None)
+                s = set()
+                for val in vals or []:
+                    for sv in flatten_values(val, unwrap_annotated=True):
+                        if isinstance(sv, KnownValue):
+                            s.add(sv.val)
+                        elif sv is UNINITIALIZED_VALUE or (isinstance(sv, AnyValue) and sv.source is AnySource.error):
+                            s.add(UNB)
+                        elif isinstance(sv, AnyValue):
+                            s.add("<any>")
+                if und.get(n.args[0].lineno):
+                    s.add(UNB)
+                rep[n.args[1].value] = s if vals else None
+        for kk, st_ in obs.items():
+            res.validated += 1
+            r = rep.get(kk)
+            if r is None or "<any>" in r:
+                res.outcomes["nest3:untracked"] += 1
+                continue
+            miss = st_ - r
+            res.outcomes["nest3:%s" % ("ok" if not miss else "missing")] += 1
+            if miss:
+                res.violation({"kind": "nested-scopes-strict-not-reported", "missing": "unbound" if miss == {UNB} else "value", "f": label[0], "g": label[1], "h": label[2], "use": str(kk)},
+                              {"nest3": list(label), "order": order},
+                              "use %s: execution observes v in %s, reported %s:\n%s" % (kk, sorted(map(str, st_)), sorted(map(str, r)), src))
+        if pi == 5:
+            res.sample({"program": src, "observed": {str(a): sorted(map(str, b)) for a, b in obs.items()}})
+
+
 def units(tier):
     n = len(skeletons(tier))
-    return [(tier, i, min(n, i + CHUNK)) for i in range(0, n, CHUNK)]
+    return [(tier, i, min(n, i + CHUNK)) for i in range(0, n, CHUNK)] + [(tier, -1, -1)]
 
 
 def _shape(blk):
@@ -697,6 +792,9 @@ def _run(res, tier, blks, base, pair=None):
 def run_unit(unit):
     tier, lo, hi = unit
     res = UnitResult()
+    if lo == -1:
+        _nest3(res, tier)
+        return res
     _run(res, tier, skeletons(tier)[lo:hi], lo)
     return res
 
@@ -707,6 +805,9 @@ def _tup(x):
 
 def replay(case):
     res = UnitResult()
+    if "nest3" in case:
+        _nest3(res, "quick", only=case["nest3"])
+        return list(res.viol.values())
     if "pair" in case:
         _run(res, "quick", [_tup(b) for b in case["pair"]], case.get("order", 0), pair=True)
         return [v for v in res.viol.values() if v["sig"]["kind"] == "same-file-interference"]
